@@ -5,6 +5,8 @@ package server
 
 import (
 	"context"
+	"crypto/tls"
+	"crypto/x509"
 	"io"
 	"net/http"
 	"net/url"
@@ -286,4 +288,96 @@ func VerifHTTPPutAC() {
 	for _, m := range vmodel.Marshalled {
 		vsym.Assert(!m.JSON, "http/C11-stored-form-is-the-wire-encoding")
 	}
+}
+
+// ---- client certificates (mTLS) on the HTTP front end: GET/HEAD are gated
+// by the "reads" flag, PUT by the "writes" flag, independently.
+func VerifHTTPClientCert() {
+	c := &kindCache{}
+	c.maxBlobSize = 1 << 40
+	c.good = map[string]bool{"client": true}
+	c.exists = map[string]bool{vHashA: true}
+	c.existsSize = map[string]int64{vHashA: 5}
+	st := &vmodel.MStream{Name: "blob", L: 5, FailAt: -1}
+	c.getRC, c.getSize = st, 5
+	h := vHTTPServer(c, false)
+	h.checkClientCertForReads = vsym.Choose("certForReads", 2) == 1
+	h.checkClientCertForWrites = vsym.Choose("certForWrites", 2) == 1
+	method := []string{"GET", "HEAD", "PUT"}[vsym.Choose("method", 3)]
+	r := &http.Request{Method: method, URL: &url.URL{Path: "/cas/" + vHashA}, Header: http.Header{}, Body: http.NoBody, RemoteAddr: "1.2.3.4:5"}
+	if method == "PUT" {
+		r.Body = &vmodel.MStream{Name: "client", L: 5, FailAt: -1}
+		r.ContentLength = 5
+	}
+	hasCert := false
+	switch vsym.Choose("tls", 4) {
+	case 0: // plain connection
+	case 1:
+		r.TLS = &tls.ConnectionState{}
+	case 2:
+		r.TLS = &tls.ConnectionState{VerifiedChains: [][]*x509.Certificate{{}}}
+	case 3:
+		r.TLS = &tls.ConnectionState{VerifiedChains: [][]*x509.Certificate{{&x509.Certificate{}}}}
+		hasCert = true
+	}
+	w := &vHTTPW{hdr: http.Header{}}
+	h.CacheHandler(w, r)
+	if w.status == 0 {
+		w.status = 200
+	}
+	vsym.Reach("http-cert-returned")
+	required := h.checkClientCertForReads
+	if method == "PUT" {
+		required = h.checkClientCertForWrites
+	}
+	touched := len(c.getKinds) > 0 || len(c.puts) > 0 || c.contains > 0
+	if required && !hasCert {
+		vsym.Reach("http-cert-refused")
+		vsym.Assert(w.status == 401, "http/C13-request-without-verified-client-certificate-is-401")
+		vsym.Assert(!touched, "http/C13-refused-request-reached-the-cache")
+	} else {
+		vsym.Reach("http-cert-admitted")
+		vsym.Assert(w.status == 200, "http/C13-admitted-request-refused")
+	}
+}
+
+// ---- instance names on the HTTP front end: the action-cache key is mangled
+// with the instance name exactly as the gRPC front end does it (same function,
+// same text - also for names a URL would escape).
+func VerifHTTPInstanceName() {
+	c := &kindCache{}
+	c.maxBlobSize = 1 << 40
+	h := vHTTPServer(c, false)
+	h.mangleACKeys = true
+	inst := []string{"", "main", "a/b", "my instance", "blobs/ac", "100%"}[vsym.Choose("instance", 6)]
+	p := "/ac/" + vHashA
+	if inst != "" {
+		p = "/" + inst + p
+	}
+	u := &url.URL{Path: p}
+	r := &http.Request{Method: "GET", URL: u, Header: http.Header{}, Body: http.NoBody, RemoteAddr: "1.2.3.4:5"}
+	rec := &keyRecorder{}
+	h.cache = rec
+	w := &vHTTPW{hdr: http.Header{}}
+	h.CacheHandler(w, r)
+	vsym.Reach("http-instance-returned")
+	want := cache.TransformActionCacheKey(vHashA, inst, vLog{})
+	ok := len(rec.hashes) == 1
+	vsym.Assert(ok, "http/C15-one-lookup")
+	if ok {
+		vsym.Assert(rec.hashes[0] == want, "http/C15-http-key-is-the-grpc-key-for-the-same-instance")
+		vsym.Assert(rec.kinds[0] == cache.RAW, "http/C15-action-cache-namespace")
+	}
+}
+
+type keyRecorder struct {
+	vCache
+	hashes []string
+	kinds  []cache.EntryKind
+}
+
+func (k *keyRecorder) Get(ctx context.Context, kind cache.EntryKind, hash string, size int64, offset int64) (io.ReadCloser, int64, error) {
+	k.hashes = append(k.hashes, hash)
+	k.kinds = append(k.kinds, kind)
+	return nil, -1, nil
 }
